@@ -392,7 +392,7 @@ def st_schema_c14(draw):
     count = 'NoGrpAA'
     fields.append({'num': count_num, 'name': count, 'type': 'NUMINGROUP', 'realm': None}); used.add(count_num)
     types = st.sampled_from(['STRING', 'INT', 'CHAR', 'PRICE', 'UTCTIMESTAMP', 'QTY', 'BOOLEAN'])
-    mode = draw(st.sampled_from(['collide2', 'collide2', 'collide3', 'collide_near', 'collide_near', 'extra_field', 'nested_vs_flat', 'disjoint', 'nested_collide', 'nested_collide', 'nested_required', 'nested_order', 'top_required', 'top_order']))
+    mode = draw(st.sampled_from(['collide2', 'collide2', 'collide3', 'collide_near', 'collide_near', 'extra_field', 'nested_vs_flat', 'disjoint', 'nested_collide', 'nested_collide', 'nested_required', 'nested_order', 'top_required', 'top_order', 'top_variants3']))
     defs = []            # list of element lists (group bodies)
     collide = False
     if mode in ('nested_collide', 'nested_required', 'nested_order'):
@@ -492,6 +492,18 @@ def st_schema_c14(draw):
             fields.append({'num': inner_num, 'name': 'NoGrpBA', 'type': 'NUMINGROUP', 'realm': None}); used.add(inner_num)
             inner = [['field', add(draw(fresh), draw(types)), True]]
             b2 = [list(e) for e in b1] + [['group', 'NoGrpBA', draw(st.booleans()), inner]]
+        elif mode == 'top_variants3':
+            # three or four definitions over the SAME member fields (one structural hash), pairwise different in mandatory flags or order
+            while len(b1) < 3:
+                b1.append(['field', add(draw(fresh.filter(lambda n: n not in base)), draw(types)), draw(st.booleans())])
+            b1[0][2] = b1[1][2] = True
+            variants = [[list(e) for e in b1]]
+            v = [list(e) for e in b1]; v[-1][2] = not v[-1][2]; variants.append(v)
+            v = [list(e) for e in b1]; v[0], v[1] = v[1], v[0]; variants.append(v)
+            if len(b1) > 3 or draw(st.booleans()):
+                v = [list(e) for e in b1]; v[-1][2] = not v[-1][2]; v[0], v[1] = v[1], v[0]; variants.append(v)
+            defs = list(draw(st.permutations(variants)))[:draw(st.integers(3, len(variants)))]
+            b2 = None
         elif mode in ('top_required', 'top_order'):
             # same member fields (hence the same structural hash): only a mandatory flag or the order differs
             while len(b1) < 3:
@@ -507,7 +519,8 @@ def st_schema_c14(draw):
             b2 = [['field', add(t, draw(types)), i == 0 or draw(st.booleans())] for i, t in enumerate(other)]
         else:
             b2 = [list(e) for e in b1] + [['field', add(draw(fresh.filter(lambda n: n not in base)), draw(types)), draw(st.booleans())]]
-        defs = [b1, b2]
+        if b2 is not None:
+            defs = [b1, b2]
     if draw(st.booleans()):
         defs.append([list(e) for e in defs[draw(st.integers(0, len(defs) - 1))]])          # a further message sharing one of the definitions
     msgs = []
